@@ -3,11 +3,15 @@
    printed by fmt_write; both are tied to the real formatter by the harness on every run.  What a format/parse round trip
    can change is (1) layout flags, white-space nodes and trailing-space marks - nothing else (C08_reparse_only_changes_layout)
    - and (2) through the trailing-space marks, the generator's inter-node space decisions: preserved under a decidable
-   guard, refuted without it.  This file holds statements only; each is closed by [exact]. *)
+   guard, refuted without it; (3) at the level of the RENDERED DOCUMENT (second half of this file): the re-parsed file,
+   mapped into the generator's AST, renders the same bytes as the original under decidable guards, and differently
+   without them.  This file holds statements only; each is closed by [exact]. *)
 From Coq.Strings Require Import Byte String.
 From Coq Require Import List Arith Bool.
 Import ListNotations.
 From V Require Import lib.Bytes model.Fmt model.FmtReasons spec.FmtSpec proofs.FmtProof proofs.FmtSemProof.
+From V Require model.Ast.
+From V Require Import spec.Denote spec.FmtEmbed proofs.DenoteCanonProof proofs.FmtRenderProof.
 
 Definition mk (ch : list node) : file := {| f_header := []; f_pkg := bs "package p"; f_nodes := [FTempl (bs "t()") ch] |}.
 
@@ -96,3 +100,97 @@ Proof. repeat split; vm_compute; reflexivity. Qed.
 Theorem C08_space_rule_refuted : exists f : file, unstable_reasons f = [] /\ gen_spaces (reparse f) <> gen_spaces f.
 Proof. exists c08_tight_if. split; [vm_compute; reflexivity|vm_compute; discriminate]. Qed.
 Print Assumptions C08_space_rule_refuted.
+
+(* ====================== the rendered document ======================
+   embed (spec/FmtEmbed.v) maps the formatter's view of a parsed file to the generator's view of the SAME file (checked
+   against the real parser on every run: harness family "embed").  reparse_ws = reparse completed with the Whitespace
+   nodes the parser builds when it reads the printed text (one after every node that does not eat its own trailing
+   white space, except in front of a for expression, whose parser strips it).  Denote.denote_case (spec/Denote.v) is the specification renderer that the C02/C13 harnesses tie to
+   the compiled generated code.  For every file, template name and environment: if
+     - there is no tight block follower (trailing_semantics_preserved, as above),
+     - Whitespace nodes in the bodies of if/else/case/for and in call blocks sit where the parser puts them: after every
+       node that does not eat the white space behind it, and nowhere else; void elements have no children (parser_shaped),
+     - templates nest at most 200 deep (shallow: the formatter model's fuel),
+   then the re-parsed file renders exactly what the original renders: same bytes, same failure and failure position.
+   _partial: the guards are sufficient, not necessary.  trailing_semantics_preserved looks through Whitespace nodes when it
+   determines the follower of a node; the renderer does not (a node followed by a Whitespace node never writes its own
+   space), so some files it rejects render the same (the harness counts them: "a guard fails, program unchanged"). *)
+Theorem C08_render_preserved_partial : forall f : file,
+  trailing_semantics_preserved f = true -> parser_shaped f = true -> shallow f = true ->
+  forall (name : bytes) (ev : env), denote_case (embed (reparse_ws f)) name ev = denote_case (embed f) name ev.
+Proof. exact render_preserved. Qed.
+Print Assumptions C08_render_preserved_partial.
+
+(* the same for every amount of renderer fuel (denote_case is denote_fuel 300) *)
+Theorem C08_render_preserved_partial_any_fuel : forall f : file,
+  trailing_semantics_preserved f = true -> parser_shaped f = true -> shallow f = true ->
+  forall (fuel : nat) (name : bytes) (ev : env), denote_fuel fuel (embed (reparse_ws f)) name ev = denote_fuel fuel (embed f) name ev.
+Proof. exact render_preserved_fuel. Qed.
+Print Assumptions C08_render_preserved_partial_any_fuel.
+
+(* non-vacuity: a file with two templates, inline runs, if / else-if / else, for, a call with a block, { children... },
+   canonical white space in bodies; all guards hold; the re-parsed tree differs from the original; both render the same
+   non-trivial document *)
+Definition c08_env : env :=
+  [(bs "ok", VBool false); (bs "alt", VBool true); (bs "name", VStr (bs "<Ann>")); (bs "c", VStr (bs "box"));
+   (bs "class:c", VStr (bs "box")); (bs "xs", VIter [[(bs "x", VStr (bs "1"))]; [(bs "x", VStr (bs "2"))]])].
+Definition c08_doc : file := {| f_header := []; f_pkg := bs "package p"; f_nodes := [
+  FTempl (bs "Page(name string)") [
+    NElem (bs "div") [AConst (bs "id") (bs "x") false false; AExpr (bs "class") [bs "c"]] false
+      [NText (bs "Hello,") SpHoriz; NElem (bs "b") [] false [NStr (bs "name") SpNone] false SpHoriz; NText (bs "and") SpHoriz;
+       NElem (bs "i") [] false [NText (bs "you") SpNone] false SpVert;
+       NIf (bs "ok") [NWs; NElem (bs "span") [] false [NText (bs "yes") SpNone] false SpVert]
+           [(bs "alt", [NHtmlComment (bs "m"); NWs; NText (bs "maybe") SpVert])] [NText (bs "no") SpVert];
+       NWs; NElem (bs "br") [] false [] false SpVert; NGoCode (bs "x := 1") false SpVert] true SpVert;
+    NFor (bs "xs") [NWs; NCall [bs "Card()"] [bs "Card()"] [NWs; NStr (bs "x") SpHoriz; NText (bs "item") SpVert]; NWs; NCallT (bs "Card()"); NWs]];
+  FTempl (bs "Card()") [NElem (bs "li") [] false [NChildren] false SpVert]] |}.
+Example C08_ex_render :
+  trailing_semantics_preserved c08_doc = true /\ parser_shaped c08_doc = true /\ shallow c08_doc = true /\
+  reparse_ws c08_doc <> c08_doc /\
+  denote_case (embed c08_doc) (bs "Page") c08_env
+    = bs "OK:<div id=""x"" class=""box"">Hello, <b>&lt;Ann&gt;</b> and <i>you</i> <!--m--> maybe<br></div><li>1 item</li> <li></li><li>2 item</li> <li></li>" /\
+  denote_case (embed (reparse_ws c08_doc)) (bs "Page") c08_env = denote_case (embed c08_doc) (bs "Page") c08_env.
+Proof. repeat (match goal with |- _ /\ _ => split end); try (vm_compute; reflexivity). vm_compute. intro H. inversion H. Qed.
+
+(* refutation without the first guard (known defect, now at the level of the document): <p><b>a</b>if c { x }</p> renders
+   <p><b>a</b>x</p>; formatted and re-parsed it renders <p><b>a</b> x</p>.  Same for the multi-line inline follower. *)
+Lemma C08_witness_render_tight :
+  parser_shaped c08_tight_if = true /\
+  denote_case (embed c08_tight_if) (bs "t") [(bs "c", VBool true)] = bs "OK:<p><b>a</b>x</p>" /\
+  denote_case (embed (reparse_ws c08_tight_if)) (bs "t") [(bs "c", VBool true)] = bs "OK:<p><b>a</b> x</p>" /\
+  denote_case (embed c08_tight_ml) (bs "t") [] = bs "OK:<p><b>a</b><span>x</span></p>" /\
+  denote_case (embed (reparse_ws c08_tight_ml)) (bs "t") [] = bs "OK:<p><b>a</b> <span>x</span></p>".
+Proof. repeat (match goal with |- _ /\ _ => split end); vm_compute; reflexivity. Qed.
+Theorem C08_render_refuted : exists (f : file) (name : bytes) (ev : env),
+  unstable_reasons f = [] /\ parser_shaped f = true /\ shallow f = true /\
+  denote_case (embed (reparse_ws f)) name ev <> denote_case (embed f) name ev.
+Proof. exists c08_tight_if, (bs "t"), [(bs "c", VBool true)]. repeat (match goal with |- _ /\ _ => split end); try (vm_compute; reflexivity). vm_compute. discriminate. Qed.
+Print Assumptions C08_render_refuted.
+
+(* refutation without the second guard (found while proving C08_render_preserved_partial; reproduced on the real code):
+   in the body of if/else/case/for or in a call block, a node that does not eat trailing white space - a comment, a call,
+   { children... }, a doctype, a nested if/for/switch, a raw or script element - directly followed by the next node.
+   The formatter puts every such node on its own line, the parser then builds a Whitespace node between the two, and the
+   generator writes it as one space:  if c { <!--a--><!--b--> }  renders <!--a--><!--b-->, after templ fmt <!--a--> <!--b-->.
+   No trailing-space mark is involved (trailing_semantics_preserved holds) and the printed text is a fixed point. *)
+Definition c08_adjacent := mk [NIf (bs "c") [NHtmlComment (bs "a"); NHtmlComment (bs "b")] [] []].
+Lemma C08_witness_render_adjacent :
+  fmt_write c08_adjacent = (bs "package p
+
+templ t() {
+	if c {
+		<!--a-->
+		<!--b-->
+	}
+}
+") /\
+  unstable_reasons c08_adjacent = [] /\ trailing_semantics_preserved c08_adjacent = true /\ parser_shaped c08_adjacent = false /\
+  gen_spaces (reparse c08_adjacent) = gen_spaces c08_adjacent /\
+  denote_case (embed c08_adjacent) (bs "t") [(bs "c", VBool true)] = bs "OK:<!--a--><!--b-->" /\
+  denote_case (embed (reparse_ws c08_adjacent)) (bs "t") [(bs "c", VBool true)] = bs "OK:<!--a--> <!--b-->".
+Proof. repeat (match goal with |- _ /\ _ => split end); vm_compute; reflexivity. Qed.
+Theorem C08_render_refuted_adjacent : exists (f : file) (name : bytes) (ev : env),
+  unstable_reasons f = [] /\ trailing_semantics_preserved f = true /\ shallow f = true /\
+  denote_case (embed (reparse_ws f)) name ev <> denote_case (embed f) name ev.
+Proof. exists c08_adjacent, (bs "t"), [(bs "c", VBool true)]. repeat (match goal with |- _ /\ _ => split end); try (vm_compute; reflexivity). vm_compute. discriminate. Qed.
+Print Assumptions C08_render_refuted_adjacent.
